@@ -152,9 +152,16 @@ def judge_special(n):
 
 
 def judge(n):
-    if isinstance(n, tuple):
+    if isinstance(n, tuple) and n[0] == "special":
         return judge_special(n[1])
+    implicit = isinstance(n, tuple) and n[0] == "implicit"
+    if implicit:
+        n = n[1]
     text, exp = program(n)
+    if implicit:
+        # the same program without its DIM line: both arrays are declared (and filled) by the tool itself
+        text = text.split("\n", 1)[1]
+        exp = {k: v for k, v in exp.items() if k != 10}
     r = tool.convert(text, initialize_vars=True, add_standard_prefix=False)
     if not r.ok:
         return ("refused" if r.refused else r.kind), None
@@ -175,7 +182,11 @@ def judge(n):
     k = n[:2]
     hx, hy = ("X2", "Y2") if k in ("X1", "Y1") else ("X1", "Y1")
     want_pro = {k, k + "$", hx, "arr_" + hy}
-    if set(pro) != want_pro or any(c != (2 if i == "arr_" + hy else 1) for i, c in pro.items()):
+    twice = {"arr_" + hy}
+    if implicit:
+        want_pro |= {"arr_" + k, "arr_" + k + "$"}
+        twice |= {"arr_" + k, "arr_" + k + "$"}
+    if set(pro) != want_pro or any(c != (2 if i in twice else 1) for i, c in pro.items()):
         v.append(("prologue-identifiers", f"pre-initialisation names {dict(pro)} expected one each of {sorted(want_pro)}"))
     allids = set()
     for c in got.values():
@@ -212,6 +223,7 @@ def run(run):
     run.assumptions = ["Color BASIC identity: first two characters + type suffix + kind", "generated identifiers: tmp_N[$], display, play, pid, erno, errnum, joy0x.."]
     ns = names(run)
     sp = [("special", n) for n in special_names()]
+    sp += [("implicit", n) for n in ns if len(n) <= 2]
     run.states += len(sp)
     run.transitions += len(sp)
     ns = ns + sp
@@ -221,8 +233,9 @@ def run(run):
         for outcome, v in res:
             n = ns[i]
             i += 1
-            special = isinstance(n, tuple)
-            if special:
+            special = isinstance(n, tuple) and n[0] == "special"
+            implicit = isinstance(n, tuple) and n[0] == "implicit"
+            if isinstance(n, tuple):
                 n = n[1]
             run.evaluations += 1
             run.count("names:" + outcome)
@@ -231,10 +244,10 @@ def run(run):
                 if acc % 6000 == 1:
                     run.sample({"name": n, "program": program(n)[0], "verdict": v})
                 for sym, detail in v:
-                    feats = {"len%d" % len(n)} | ({"special-name"} if special else set())
+                    feats = {"len%d" % len(n)} | ({"special-name"} if special else set()) | ({"implicit-arrays"} if implicit else set())
                     if len(n) >= 2 and n[1].isdigit():
                         feats.add("second-char-digit")
-                    run.violation(sym, feats, {"name": n, "special": special}, f"name {n}: {detail}")
+                    run.violation(sym, feats, {"name": n, "special": special, "implicit": implicit}, f"name {n}{' (arrays not DIMensioned)' if implicit else ''}: {detail}")
             elif outcome == "unparsable" and n[:2] in ("DO", "PI", "SQ"):
                 run.count("names:b09-reserved (known finding F07-reserved-varname of C07)")
             elif outcome == "unparsable":
@@ -245,5 +258,5 @@ def run(run):
 
 
 def replay(case):
-    o, v = judge(("special", case["name"]) if case.get("special") else case["name"])
+    o, v = judge(("special", case["name"]) if case.get("special") else (("implicit", case["name"]) if case.get("implicit") else case["name"]))
     return {"outcome": o, "violations": v if isinstance(v, list) else [v]}
